@@ -1052,9 +1052,15 @@ func (m *repoManager) deleteRepo(uuid dvid.UUID, passcode string) error {
 	}
 
 	// Delete all UUIDs in this repo from metadata
+	r.RLock()
+	versions := make([]dvid.VersionID, 0, len(r.dag.nodes))
+	for v := range r.dag.nodes {
+		versions = append(versions, v)
+	}
+	r.RUnlock()
 	m.idMutex.Lock()
 	delete(m.repoToUUID, r.id)
-	for v := range r.dag.nodes {
+	for _, v := range versions {
 		u, found := m.versionToUUID[v]
 		if !found {
 			dvid.Errorf("Found version id %d with no corresponding UUID on delete of repo %s!\n", v, uuid)
@@ -1727,6 +1733,7 @@ func (m *repoManager) hideBranch(uuid dvid.UUID, branch string) error {
 	}
 	m.repoMutex.Lock()
 	r.Lock()
+	r.dag.Lock()
 	del_set := make(map[dvid.VersionID]struct{})
 	del_uuids := make(map[dvid.VersionID]dvid.UUID)
 	for v, node := range r.dag.nodes {
@@ -1748,6 +1755,7 @@ func (m *repoManager) hideBranch(uuid dvid.UUID, branch string) error {
 			node.children = children
 		}
 	}
+	r.dag.Unlock()
 	r.Unlock()
 	m.repoMutex.Unlock()
 
@@ -2015,7 +2023,9 @@ func (m *repoManager) merge(parents []dvid.UUID, note string, mt MergeType) (dvi
 	m.repoMutex.Unlock()
 
 	r.Lock()
+	r.dag.Lock()
 	r.dag.nodes[childV] = child
+	r.dag.Unlock()
 	r.Unlock()
 
 	// Set up pointers with parents
